@@ -84,6 +84,7 @@ EmptyList   == [n \in Nonces |-> 0]
 NoncesOf(l) == {n \in Nonces : l[n] # 0}
 TxSet(a, l) == {<<a, n, l[n]>> : n \in NoncesOf(l)}
 Without(l, S) == [n \in Nonces |-> IF n \in S THEN 0 ELSE l[n]]
+Gaps(l) == LET ns == NoncesOf(l) IN IF ns = {} THEN {} ELSE (MinOf(ns)..MaxOf(ns)) \ ns
 
 AllOf(P)   == P.loc \cup P.rem
 Slots(P)   == Cardinality(AllOf(P))
@@ -399,7 +400,7 @@ AddTx(tx, local) ==
                 THEN promoteCh' = Append(promoteCh, msg) /\ UNCHANGED blocked
                 ELSE blocked' = [on |-> TRUE, msg |-> msg] /\ UNCHANGED promoteCh
         /\ Log([op |-> "add", tx |-> tx, local |-> local, res |-> o.res, replaced |-> o.replaced,
-                nalt |-> Cardinality(outs), st |-> St(o.st)])
+                drop |-> o.drop, nalt |-> Cardinality(outs), st |-> St(o.st)])
     /\ mutated' = TRUE /\ step' = step + 1
     /\ UNCHANGED <<chain, nblocks, loopHead, resetReq, dirty, launch, run>>
 
@@ -455,7 +456,7 @@ RunReorg ==
     /\ run.on /\ MuFree
     /\ LET outs == RunOutcomes(pool, run.reset, run.dirty) IN \E S \in outs :
         /\ pool' = S
-        /\ Log([op |-> "run", reset |-> run.reset.on, dirty |-> run.dirty,
+        /\ Log([op |-> "run", reset |-> run.reset.on, dirty |-> run.dirty, reinject |-> run.reset.reinject,
                 nalt |-> Cardinality(outs), st |-> St(S)])
     /\ run' = [on |-> FALSE, reset |-> NoReset, dirty |-> {}]
     /\ owed' = IF run.reset.on THEN {} ELSE owed \ run.dirty
@@ -485,7 +486,7 @@ FAdd(tx, local) ==
     /\ LET outs == AddOutcomes(pool, tx, local) IN \E o \in outs :
         /\ pool' = o.st /\ dirty' = dirty \cup AddMsg(o, tx)
         /\ Log([op |-> "add", tx |-> tx, local |-> local, res |-> o.res, replaced |-> o.replaced,
-                nalt |-> Cardinality(outs), st |-> St(o.st)])
+                drop |-> o.drop, nalt |-> Cardinality(outs), st |-> St(o.st)])
     /\ UNCHANGED <<chain, nblocks, loopHead>>
 
 FSetGas(f) ==
@@ -531,7 +532,10 @@ FNext ==
 FQuiescent == dirty = {} /\ obs.op \in {"tick", "head", "init"}
 
 Spec  == Init /\ [][IF Fused THEN FNext ELSE Next]_vars
-FairSpec == Init /\ [][Next]_vars /\ WF_vars(Internal)
+\* Go's select chooses among ready cases at random, the ticker keeps firing, a runnable goroutine is
+\* eventually scheduled: weak fairness of every internal step
+FairSpec == Init /\ [][Next]_vars /\ WF_vars(SendUnblock) /\ WF_vars(LoopRecvPromote) /\ WF_vars(Tick)
+                 /\ WF_vars(Launch) /\ WF_vars(RunReorg)
 
 ----------------------------------------------------------------------------
 \* ---------- C19: the consistency invariants, as predicates on a pool record
@@ -539,8 +543,9 @@ FairSpec == Init /\ [][Next]_vars /\ WF_vars(Internal)
 PendingContiguousFromStateNonce_(P) ==
     \A a \in Accts : LET ns == NoncesOf(P.pend[a]) IN
         ns # {} => ns = P.sn[a]..(P.sn[a] + Cardinality(ns) - 1)
-PendingContiguous_(P) ==                       \* weaker: no gaps (holds at every state)
-    \A a \in Accts : LET ns == NoncesOf(P.pend[a]) IN ns # {} => ns = MinOf(ns)..MaxOf(ns)
+PendingContiguous_(P) == \A a \in Accts : Gaps(P.pend[a]) = {}           \* no holes
+PendingStartsAtStateNonce_(P) ==
+    \A a \in Accts : LET ns == NoncesOf(P.pend[a]) IN ns # {} => MinOf(ns) = P.sn[a]
 PendingAffordable_(P) ==
     \A a \in Accts : \A n \in NoncesOf(P.pend[a]) : P.pend[a][n] <= P.bal[a]
 PendingQueueDisjoint_(P) ==
@@ -568,14 +573,33 @@ PendingContiguous    == PendingContiguous_(pool)
 CapacityRespected    == CapacityRespected_(pool)
 \* at quiescent points
 PendingContiguousFromStateNonce == IsQ => PendingContiguousFromStateNonce_(pool)
+PendingStartsAtStateNonce       == IsQ => PendingStartsAtStateNonce_(pool)
 PendingAffordable               == IsQ => PendingAffordable_(pool)
 PendingNonceAgrees              == IsQ => PendingNonceAgrees_(pool)
 LimitsRespected                 == IsQ => LimitsRespected_(pool)
 
-\* a same-nonce replacement in the pending list or in the queue needs the price bump
-ReplacedOK(l1, l2) == \A n \in Nonces : (l1[n] # 0 /\ l2[n] # 0 /\ l1[n] # l2[n]) => Bumps(l1[n], l2[n])
+\* a same-nonce replacement in the pending list or in the queue needs the price bump (a transaction
+\* discarded to make room in a full pool is not replaced: its nonce may be taken at any price)
+ReplacedOK(a, l1, l2, drop) ==
+    \A n \in Nonces : (l1[n] # 0 /\ l2[n] # 0 /\ l1[n] # l2[n]) => (Bumps(l1[n], l2[n]) \/ <<a, n, l1[n]>> \in drop)
 ReplacementNeedsBump ==
-    [][\A a \in Accts : ReplacedOK(pool.pend[a], pool'.pend[a]) /\ ReplacedOK(pool.que[a], pool'.que[a])]_vars
+    [][obs'.op = "add" => \A a \in Accts : /\ ReplacedOK(a, pool.pend[a], pool'.pend[a], obs'.drop)
+                                            /\ ReplacedOK(a, pool.que[a], pool'.que[a], obs'.drop)]_vars
+
+\* KNOWN FINDING (reproduced on the real code, see known-findings.json): go-quai does NOT keep the
+\* pending list free of holes.  demoteUnexecutables only looks for a gap in FRONT of the list; when a
+\* reset lowers the state nonce (chain reorg) and one of the re-injected transactions is refused
+\* (unaffordable at the new head, below the price floor, pool full of locals ...), the nonces below
+\* it are promoted in front of the surviving pending transactions and a hole stays inside the list
+\* (MCTxPool_gap.cfg makes TLC produce the shortest such behaviour).  The model therefore satisfies
+\* PendingContiguous / PendingContiguousFromStateNonce only up to that cause, stated exactly here:
+\* a hole can only appear in a reset run, at the nonce of a re-injected transaction that is not in
+\* the pool afterwards.
+HolesOnlyFromRefusedReinject ==
+    [][\A a \in Accts : (Gaps(pool'.pend[a]) # {} /\ Gaps(pool.pend[a]) = {}) =>
+          /\ obs'.op \in {"head", "run"}
+          /\ \E i \in 1..Len(obs'.reinject) :
+                LET t == obs'.reinject[i] IN t[1] = a /\ t[2] \in Gaps(pool'.pend[a]) /\ t \notin AllOf(pool')]_vars
 
 TypeOK ==
     /\ pool.loc \subseteq Tx /\ pool.rem \subseteq Tx /\ pool.priced \subseteq Tx
@@ -588,4 +612,7 @@ ResetEventuallyServed   == resetReq.on ~> ~resetReq.on
 SenderEventuallyUnblocked == blocked.on ~> ~blocked.on
 
 EmitHist == PrintT("@@" \o ToJson(hist'))
+EmitWalk == (step' = MaxOps) => PrintT("@@" \o ToJson(hist'))      \* complete walks only (simulation)
+\* prints the behaviour that leads to a pending list with a hole (used with MCTxPool_gap.cfg)
+NoGapWitness == PendingContiguous_(pool) \/ (PrintT("@@" \o ToJson(hist)) /\ FALSE)
 =============================================================================
